@@ -11,6 +11,7 @@ The specification vocabulary (`Kw.kwSpec`, `Kw.segsHere`, `Kw.SegsOccur`, `Kw.an
 matcher.  Case-insensitivity is ASCII (`Kw.foldEq`); for quoted keywords too, as in the code.
 -/
 import AgModel.Pipeline
+import AgModel.Lang.Parser
 import AgProofs.Lemmas.Kw
 
 namespace Ag.C02
@@ -47,6 +48,87 @@ theorem C02_tree_semantics (s : List Char) :
   · simp only [Search.sem]
   · simp [Search.sem, Search.semAll]
 
+/-! ### the grammar's construction of the tree: `*` (an empty keyword) as an operand -/
+
+/-- the parser's optional filter: `none` (a `*`-only or empty keyword) = every line -/
+def optSem : Option Search → List Char → Bool
+  | none, _ => true
+  | some f, s => Search.sem f s
+
+theorem all_filterMap (ops : List (Option Search)) (s : List Char) :
+    (ops.filterMap id).all (fun f => Search.sem f s) = ops.all (fun o => optSem o s) := by
+  induction ops with
+  | nil => rfl
+  | cons o os ih => cases o <;> simp [optSem, ih]
+
+theorem any_filterMap (ops : List (Option Search)) (s : List Char)
+    (h : ops.any Option.isNone = false) :
+    (ops.filterMap id).any (fun f => Search.sem f s) = ops.any (fun o => optSem o s) := by
+  induction ops with
+  | nil => rfl
+  | cons o os ih =>
+    cases o with
+    | none => simp at h
+    | some f =>
+      have h' : os.any Option.isNone = false := by simpa using h
+      simp [optSem, ih h']
+
+/-- semantics of `Lang.filterChain mk` for `mk = And` -/
+theorem C02_and_chain (ops : List (Option Search)) (s : List Char) :
+    optSem (Lang.filterChain Search.and ops) s = ops.all (fun o => optSem o s) := by
+  rw [← all_filterMap]
+  unfold Lang.filterChain
+  split
+  · rename_i h; simp [h, optSem]
+  · rename_i x h; simp [h, optSem]
+  · rename_i xs h1 h2; simp [optSem, Search.sem, semAll_eq]
+
+/-- **C02 (`*` as an operand of OR).** For every non-empty operand list the parsed OR chain selects
+exactly the lines selected by SOME operand, an empty keyword (`*`, `**`, `""`) standing for every
+line. -/
+theorem C02_or_chain (ops : List (Option Search)) (s : List Char) (hne : ops ≠ []) :
+    optSem (Lang.orChain ops) s = ops.any (fun o => optSem o s) := by
+  unfold Lang.orChain
+  by_cases h : ops.any Option.isNone = true
+  · simp only [h, if_true, optSem]
+    obtain ⟨o, ho, hn⟩ := List.any_eq_true.mp h
+    cases o with
+    | none => exact (List.any_eq_true.mpr ⟨none, ho, rfl⟩).symm
+    | some f => simp at hn
+  · have h' : ops.any Option.isNone = false := by
+      cases hb : ops.any Option.isNone with
+      | true => exact absurd hb h
+      | false => rfl
+    simp only [h', Bool.false_eq_true, if_false]
+    rw [← any_filterMap ops s h']
+    unfold Lang.filterChain
+    split
+    · rename_i hf
+      exfalso
+      cases ops with
+      | nil => exact hne rfl
+      | cons o os =>
+        cases o with
+        | none => simp at h'
+        | some f => simp at hf
+    · rename_i x hf; simp [hf, optSem]
+    · rename_i xs h1 h2; simp [optSem, Search.sem, semAny_eq]
+
+/-- **C02 (`NOT *`).** The negation built by `filter_not` selects exactly the lines its operand does
+not select; `NOT *` selects nothing. -/
+theorem C02_not_operand (o : Option Search) (s : List Char) :
+    optSem (some (Search.not (o.getD (Search.and [])))) s = !optSem o s := by
+  cases o <;> simp [optSem, Search.sem, Search.semAll]
+
+/-- **Counterexample for the code before repo commit 0ef6700** (finding C02/star-operand-dropped):
+the OR chain was built by `Lang.filterChain` too, which drops the `*` operand, so `k OR *` selected only
+the lines matching `k`; and `NOT *` was `*`. -/
+theorem C02_star_operand_counterexample (k : Keyword) (s : List Char) :
+    optSem (Lang.filterChain Search.or [some (.kw k), none]) s = Kw.isMatch k s ∧
+    optSem ((none : Option Search).map Search.not) s = true := by
+  simp [Lang.filterChain, optSem, Search.sem]
+
+example : Lang.orChain [some (.kw ⟨"a", .wildcard⟩), none] = none := by decide
 /-! ### one keyword -/
 
 /-- **C02 (keyword specification).** For every keyword and every line, the model's matcher
